@@ -152,7 +152,11 @@ CORPUS = [
 ]
 MANY = ",".join("%d:%d" % (2 * k, 2 * k) for k in range(51))          # 51 disjuncts: merged
 MANY49 = ",".join("%d:%d" % (3 * k, 3 * k + 1) for k in range(49))     # 49 disjuncts: kept
-DI_CORPUS = ["di id " + MANY, "di id " + MANY49, "di neg " + MANY49, "di join %s 200:200" % MANY49,
+SEVEN = ",".join("%d:%d" % (3 * k, 3 * k) for k in range(-3, 4))                 # 7 singletons
+EIGHT = ",".join("%d:%d" % (10 * k + 5, 10 * k + 6) for k in range(-4, 4))      # 8 intervals: 56 raw pairs with SEVEN
+DI_CORPUS = ["di sub %s %s" % (SEVEN, EIGHT), "di mul %s %s" % (SEVEN, EIGHT), "di div %s %s" % (EIGHT, SEVEN),
+             "di sub %s %s" % (EIGHT, SEVEN), "di add %s %s" % (SEVEN, EIGHT),
+             "di id " + MANY, "di id " + MANY49, "di neg " + MANY49, "di join %s 200:200" % MANY49,
              "di add 0:0,10:10,20:20,30:30,40:40,50:50,60:60,70:70 0:0,100:100,200:200,300:300,400:400,500:500,600:600,700:700",
              "di widen %s 0:1,500:600" % MANY49, "di leq 6:7 " + MANY49, "di meet %s 10:40" % MANY49,
              "di div -7:-5 2:3", "di div -7:-5,5:7 2:3", "di meet 1:2,5:7 2:5", "di add 1:2,5:7 10:10",
@@ -281,6 +285,16 @@ def gen_di(seed, tier):
         a = rand_di(rng)
         b = rng.choice(DI_SHIFT) if op in DI_SHIFTOPS else rand_di(rng)
         lines.append("di %s %s %s" % (op, a, b))
+    # operands with 7-9 disjuncts each: the pairwise result list passes the limit of 50 disjuncts
+    # before it is normalised (the collapse to the hull must see a sorted list)
+    def many(k):
+        pts = sorted(rng.sample(range(-200, 200), 2 * k))
+        parts = ["%d:%d" % (pts[2 * i], pts[2 * i + 1]) for i in range(k)]
+        rng.shuffle(parts)
+        return ",".join(parts)
+    for _ in range(60 if quick else 1500):
+        op = rng.choice([o for o in DI_BIN if o not in ("leq", "eq")] + ["div", "mul", "sub", "sub", "mul"])
+        lines.append("di %s %s %s" % (op, many(rng.randint(7, 9)), many(rng.randint(7, 9))))
     return lines
 
 
